@@ -179,7 +179,10 @@ func c08(c *Ctx) {
 			if ph, ok := val.(*ssa.Phi); ok {
 				vn = ph.Comment
 			}
-			r.Check("percentile:"+nameField+":value", vn == wv[1], cl.Pos(), fmt.Sprintf("%s carries %s (documented %s)", nameField, vn, wv[1]))
+			// ... or, whatever the variable is called, by what the value is made of
+			kindWant := map[string]string{"count": "count", "mean": "mean", "sum": "sum", "sumSquares": "sumSquares", "upper": "boundary", "lower": "boundary"}[nameField]
+			kindGot := percentileValueKind(ft, a[2])
+			r.Check("percentile:"+nameField+":value", vn == wv[1] || kindGot == kindWant, cl.Pos(), fmt.Sprintf("%s carries %s (documented %s); by construction the value is a %s", nameField, vn, wv[1], kindGot))
 			if nameField == "upper" {
 				r.Check("percentile:upper-for-positive", pctPos == "true", cl.Pos(), "upper_<p> is emitted for p > 0")
 			}
@@ -479,6 +482,50 @@ func c08(c *Ctx) {
 			if n == "k" {
 				hasK = true
 			}
+		}
+		// a single value has rank 1 for every percentile: the rounded rank (0 for |p| < 50 when n = 1, which
+		// skips the percentile) is computed only where n > 1 (or n != 1) is known
+		for v, nm := range atoms {
+			if nm != "k" {
+				continue
+			}
+			in := v.(ssa.Instruction)
+			// only the rank: the rounded quantity is a share of n (timer.Count = int(round(SampledCount)) is not)
+			var mentionsN func(x ssa.Value, d int) bool
+			isN := func(x ssa.Value) bool { return false }
+			mentionsN = func(x ssa.Value, d int) bool {
+				if d > 8 || x == nil {
+					return false
+				}
+				if isN(x) {
+					return true
+				}
+				if ins, ok := ptrOrigin(x).(ssa.Instruction); ok {
+					for _, op := range ins.Operands(nil) {
+						if *op != nil && mentionsN(*op, d+1) {
+							return true
+						}
+					}
+				}
+				return false
+			}
+			isN = func(x ssa.Value) bool {
+				x = ptrOrigin(x)
+				if cl, ok := x.(*ssa.Call); ok && isCall(cl, "builtin len") {
+					p := pathOf(cl.Call.Args[0])
+					return strings.HasSuffix(p, ".Values") || strings.HasSuffix(pathOf(ptrOrigin(cl.Call.Args[0])), ".Values")
+				}
+				return false
+			}
+			isK := func(k int64) func(ssa.Value) bool {
+				return func(x ssa.Value) bool { c, ok := constInt(x); return ok && c == k }
+			}
+			if !mentionsN(v.(*ssa.Convert).X, 0) {
+				continue
+			}
+			facts := factsAt(in.Block())
+			okN := cmpHolds(facts, isN, isK(1), token.GTR, token.NEQ) || cmpHolds(facts, isN, isK(2), token.GEQ)
+			r.Check("rank:single-value-has-rank-one", okN, in.Pos(), "the rounded rank is used only for n > 1 (a lone value is the k = 1 lowest and highest value of every percentile)")
 		}
 		if !r.Check("rank:identified", hasK, ft.Pos(), "the rank k = int(round(...)) was identified") {
 			return
@@ -925,4 +972,160 @@ func c08(c *Ctx) {
 		}
 		r.Check("idle-timer-count-zero", okIdle, ft.Pos(), "a timer without values reports count 0")
 	})
+}
+
+
+// percentileValueKind classifies the value handed to Percentiles.Set by what it is computed from, looking
+// through the phis of the percentile loop and ignoring the initial values taken from Timer.Min / Timer.Max:
+// "count" (a converted integer), "mean" (a quotient), "boundary" (an element of the values), "sum" /
+// "sumSquares" (elements or differences of elements of the prefix-sum slice whose entries are sums of the
+// values, resp. of their squares).
+func percentileValueKind(ft *ssa.Function, v ssa.Value) string {
+	isValues := func(x ssa.Value) bool {
+		for {
+			sl, ok := x.(*ssa.Slice)
+			if !ok {
+				break
+			}
+			x = sl.X
+		}
+		return strings.HasSuffix(pathOf(x), ".Values") || strings.HasSuffix(pathOf(ptrOrigin(x)), ".Values")
+	}
+	elemOfValues := func(x ssa.Value) bool {
+		if l, ok := ptrOrigin(x).(*ssa.UnOp); ok && l.Op == token.MUL {
+			if a, ok := l.X.(*ssa.IndexAddr); ok && isValues(a.X) {
+				return true
+			}
+		}
+		return false
+	}
+	// squares[S]: the local slice S is filled with term = x*x (true) or term = x (false)
+	prefixKind := func(S ssa.Value, field int) string {
+		kind := ""
+		eachInstr(ft, func(in ssa.Instruction) {
+			st, ok := in.(*ssa.Store)
+			if !ok {
+				return
+			}
+			check := func(val ssa.Value) {
+				add := asBinOp(val, token.ADD)
+				if add == nil {
+					return
+				}
+				for _, t := range []ssa.Value{add.X, add.Y} {
+					if m := asBinOp(t, token.MUL); m != nil && elemOfValues(m.X) && elemOfValues(m.Y) {
+						kind = "sumSquares"
+					} else if elemOfValues(t) && kind == "" {
+						kind = "sum"
+					}
+				}
+			}
+			da := st.Addr
+			if fa, isFA := da.(*ssa.FieldAddr); isFA {
+				if field >= 0 && fa.Field == field {
+					if ia, ok := fa.X.(*ssa.IndexAddr); ok && ptrOrigin(ia.X) == S {
+						check(st.Val)
+					}
+				}
+				return
+			}
+			ia, ok := da.(*ssa.IndexAddr)
+			if !ok || ptrOrigin(ia.X) != S {
+				return
+			}
+			if field < 0 {
+				check(st.Val)
+				return
+			}
+			if wl, isLd := st.Val.(*ssa.UnOp); isLd && wl.Op == token.MUL {
+				if tmp, isAl := wl.X.(*ssa.Alloc); isAl {
+					for _, ref := range referrers(tmp) {
+						if tf, ok := ref.(*ssa.FieldAddr); ok && tf.Field == field {
+							for _, r2 := range referrers(tf) {
+								if fs, ok := r2.(*ssa.Store); ok && fs.Addr == ssa.Value(tf) {
+									check(fs.Val)
+								}
+							}
+						}
+					}
+				}
+			}
+		})
+		return kind
+	}
+	if cv, ok := v.(*ssa.Convert); ok {
+		if isIntType(cv.X.Type()) {
+			return "count"
+		}
+		v = cv.X
+	}
+	kinds := map[string]bool{}
+	seen := map[ssa.Value]bool{}
+	var leaf func(x ssa.Value, d int)
+	leaf = func(x ssa.Value, d int) {
+		if d > 8 || seen[x] {
+			return
+		}
+		seen[x] = true
+		x = ptrOrigin(x)
+		switch y := x.(type) {
+		case *ssa.Phi:
+			for _, e := range y.Edges {
+				leaf(e, d+1)
+			}
+			return
+		case *ssa.Const:
+			return // a constant says nothing about which statistic this is (skipped percentiles, initial values)
+		case *ssa.BinOp:
+			switch y.Op {
+			case token.QUO:
+				kinds["mean"] = true
+				return
+			case token.SUB:
+				leaf(y.X, d+1)
+				leaf(y.Y, d+1)
+				return
+			case token.MUL:
+				return // Min*Min: an initial value
+			}
+		case *ssa.UnOp:
+			if y.Op == token.MUL {
+				addr := y.X
+				field := -1
+				if fa, ok := addr.(*ssa.FieldAddr); ok {
+					if ia, ok := fa.X.(*ssa.IndexAddr); ok {
+						field = fa.Field
+						addr = ia
+					} else {
+						return // a field of the timer (Min / Max): an initial value
+					}
+				}
+				if ia, ok := addr.(*ssa.IndexAddr); ok {
+					if isValues(ia.X) {
+						kinds["boundary"] = true
+						return
+					}
+					if mk, isMk := ptrOrigin(ia.X).(*ssa.MakeSlice); isMk {
+						if k := prefixKind(mk, field); k != "" {
+							kinds[k] = true
+							return
+						}
+					}
+				}
+			}
+		}
+		kinds["?"] = true
+	}
+	leaf(v, 0)
+	if len(kinds) == 1 {
+		for k := range kinds {
+			return k
+		}
+	}
+	var ks []string
+	for k := range kinds {
+		ks = append(ks, k)
+	}
+	sort.Strings(ks)
+	return "mixture " + strings.Join(ks, "+")
 }
